@@ -171,11 +171,19 @@ def run(ctx):
                 "ATOM      3  P     A B   1       1.000   0.000   0.000  1.00  0.00           P\n"
                 "ATOM      4  OP1   A B   1       5.800   0.000   0.000  0.50  0.00           O\n"
                 "ATOM      5  P     A B   2      10.000   0.000   0.000  0.30  0.00           P\n"
-                "ATOM      6  OP1   A A   2      10.800   0.000   0.000  0.30  0.00           O\nEND\n")
-    r = subprocess.run([PY, "-m", "rnapolis.clashfinder", synth, "--ignore-occupancy"], capture_output=True, text=True,
+                "ATOM      6  OP1   A A   2      10.800   0.000   0.000  0.30  0.00           O\n"
+                "ATOM      7  P     A A   3      20.000   0.000   0.000  0.50  0.00           P\n"
+                "ATOM      8  OP1   A A   3      20.600   0.000   0.000  0.50  0.00           O\n"
+                "ATOM      9  P     A C   1      30.000   0.000   0.000  1.00  0.00           P\n"
+                "ATOM     10  P     A C   2      30.900   0.000   0.000  1.00  0.00           P\nEND\n")
+    # clashes in three chain pairs (A-A, A-B, C-C): the CSV must still list every clash exactly once
+    csvs = os.path.join(d, "synth.csv")
+    if os.path.exists(csvs):
+        os.unlink(csvs)
+    r = subprocess.run([PY, "-m", "rnapolis.clashfinder", synth, "--ignore-occupancy", "--csv", csvs], capture_output=True, text=True,
                        env=dict(os.environ, PYTHONPATH="/repo/src", LOGLEVEL="CRITICAL"))
     ctx.count(("cli", "synth"), True, "cli")
-    why = check_report(r.stdout, None)
+    why = check_report(r.stdout, csvs)
     _report_cases(r.stdout, {"file": "synthetic two-chain file", "flags": ["--ignore-occupancy"]}, rep_expr, rep_exp, rep_case)
     if why or "A.A1" not in r.stdout:
         ctx.violation(why or "synthetic two-chain file: no report", {"file": open(synth).read(), "flags": ["--ignore-occupancy"], "stdout": r.stdout})
